@@ -158,6 +158,14 @@ func (c *Compactor) Compact(ctx context.Context, dstLevel int) (*ltx.FileInfo, e
 
 	pr, pw := io.Pipe()
 	go func() {
+		// A truncated source file makes the ltx decoder panic; fail the
+		// compaction instead of crashing the daemon.
+		defer func() {
+			if r := recover(); r != nil {
+				_ = pw.CloseWithError(fmt.Errorf("ltx compactor: invalid ltx input: %v", r))
+			}
+		}()
+
 		comp, err := ltx.NewCompactor(pw, rdrs)
 		if err != nil {
 			_ = pw.CloseWithError(fmt.Errorf("new ltx compactor: %w", err))
